@@ -15,9 +15,15 @@ part of the error messages that the correspondence compares.
 
 What a sub-parser contributes when it is selected (`subparser.parse_env(...)` resp.
 `subparser.get_defaults(...)`) enters through the parameter `lay`; the theorems hold for every
-`lay`.  The instance `layOf` builds it from the sub-parser's own defaults and environment
+`lay`.  The instance `layFuel` builds it from the sub-parser's own defaults and environment
 (`_parse_defaults_and_environ`: `merge_config(cfg_env, cfg_defaults)`) by running the same
 `handle`/`sweep` on the sub-parser, as `parse_env(_skip_validation=True)` does.
+
+Outside the model (inputs of it): what `get_defaults` and `_load_env_vars` of each parser return
+(`Info.dflt`, `Info.envc`: default config files and the `parent_parsers` context that decides which
+files apply, the environment-variable names), argparse's tokenisation of the command line, typed
+option values.  An exception raised inside a sub-parser's `parse_env` propagates in the code; the
+model's layer is a total function (such calls are counted as skipped by the correspondence).
 
 Imports nothing beyond core Lean.  Every function is structurally recursive.
 -/
